@@ -161,6 +161,10 @@ func (l *lexer) backup() {
 }
 
 func (l *lexer) peek() string {
+	if l.pos >= len(l.input) {
+		// At end of input next() does not advance, so there is nothing to back up.
+		return delimEOF
+	}
 	val := l.next()
 	l.backup()
 	return val
@@ -331,6 +335,9 @@ func isAlpha(s string) bool {
 func lexSpace(l *lexer) stateFn {
 	for {
 		str := l.next()
+		if str == delimEOF {
+			break
+		}
 		if !isSpace(str) {
 			l.backup()
 			break
@@ -345,6 +352,9 @@ func lexSpace(l *lexer) stateFn {
 func lexNumber(l *lexer) stateFn {
 	for {
 		str := l.next()
+		if str == delimEOF {
+			break
+		}
 		if !isNumeric(str) {
 			l.backup()
 			break
@@ -359,6 +369,9 @@ func lexNumber(l *lexer) stateFn {
 func lexPunctuation(l *lexer) stateFn {
 	for {
 		str := l.next()
+		if str == delimEOF {
+			break
+		}
 		if !isPunctuation(str) {
 			l.backup()
 			break
